@@ -21,7 +21,7 @@ Definition norm2 (a : vec) : R := dot a a.
 (* the (scaled) midpoint of a and b *)
 Definition smid (s : R) (a b : vec) : vec := vscale s (vadd a b).
 
-Ltac vring := unfold det, dot, cross, smid, vscale, vadd, norm2; cbn [vx vy vz]; ring.
+Ltac vring := unfold norm2, det, dot, cross, smid, vscale, vadd; cbn [vx vy vz]; ring.
 
 Lemma det_cyc a b c : det a b c = det b c a. Proof. vring. Qed.
 Lemma det_swap a b c : det a b c = - det b a c. Proof. vring. Qed.
